@@ -592,6 +592,13 @@ class BaseParser:
                             value = data[alias]
                         else:
                             if data[alias] != value:
+                                # spellings that are not taken as input do not conflict (like data first):
+                                # a later one is skipped, an earlier one is replaced
+                                if field.is_no_input(data[alias], options=options):
+                                    continue
+                                if field.is_no_input(value, options=options):
+                                    value = data[alias]
+                                    continue
                                 context.handle_error(exc.AliasConflictError(item=name, value=data[alias]))
                                 break
 
